@@ -118,4 +118,30 @@ theorem storeAll_list (name : List Char) : ∀ (vs : List XVal) (res : Dict) (l 
     have := ih (storeElement res name v) (l ++ [v]) h1
     simpa [storeAll, List.append_assoc] using this
 
+theorem storeAll_other (name k : List Char) (hk : k ≠ name) : ∀ (vs : List XVal) (res : Dict),
+    (storeAll res name vs).lookup k = res.lookup k := by
+  intro vs
+  induction vs with
+  | nil => intro res; rfl
+  | cons v r ih =>
+    intro res
+    simp only [storeAll, List.foldl] at ih ⊢
+    rw [ih]
+    exact storeElement_other _ _ _ _ hk
+
+theorem storeElement_fresh (res : Dict) (name : List Char) (v : XVal) (h : res.lookup name = none) :
+    (storeElement res name v).lookup name = some v := by
+  unfold storeElement
+  rw [h]
+  exact lookup_append_fresh _ _ _ h
+
+theorem storeElement_second (res : Dict) (name : List Char) (old v : XVal) (h : res.lookup name = some old)
+    (hold : old.isList = false) : (storeElement res name v).lookup name = some (.list [old, v]) := by
+  unfold storeElement
+  rw [h]
+  cases old with
+  | list l => simp [XVal.isList] at hold
+  | str s => exact lookup_dictSet_self _ _ _
+  | dict d => exact lookup_dictSet_self _ _ _
+
 end Kskm.Xml
